@@ -859,3 +859,10 @@ def x16(cx: Cx, ob: Ob) -> None:
     check_match_record(cx, ob)
     check_merge(cx, ob)
     add_record_guards(cx, ob)
+
+
+@obligation("C01-X19", "records hold the names they were given (shared with C04-D3): the Record validators reject only a canonical value among the synonyms of its own side and otherwise keep every entry of the synonym lists - a validator that filters the lists (blank entries, repeated entries) removes names from every record built anywhere, so they are in no lookup table", floor=3)
+def x19(cx: Cx, ob: Ob) -> None:
+    from .c04 import d3 as validators
+
+    validators(cx, ob)
